@@ -365,7 +365,7 @@ pub fn scenario_json(sc: &Scenario) -> serde_json::Value {
 
 pub fn run(cfg: &RunCfg) -> Ctx {
     let mut all = Ctx::new();
-    all.merge(par_cases(cfg, "shutdown", cfg.n(250, 16 * 2500), || (), |_, rng, ctx, _| case(rng, ctx)));
+    all.merge(par_cases(cfg, "shutdown", cfg.n(1200, 16 * 2500), || (), |_, rng, ctx, _| case(rng, ctx)));
     for k in ["phase.pre-headers", "phase.mid-stream", "phase.done", "phase.not-started", "scen.no_call_in_flight", "scen.post_signal_call", "scen.signal_with_accept", "scen.kept_idle_clients", "observed.accepted_calls_completed"] {
         all.floor(k, 3);
     }
